@@ -49,6 +49,18 @@ def deep_documents(rng):
     return out
 
 
+# names in roles they were not made for: predefined procedures and `int` as types / variables / callees of the wrong kind,
+# undeclared names everywhere, `main` as a type, redeclared predefined names - every identifier is queried with every request
+ODD_ROLE_DOCS = [
+    "type t = printi;\ntype u = array [2] of readc;\ntype v = nosuch;\ntype w = w;\nproc main() { }\n",
+    "type main = int;\ntype int = int;\nproc printi(i: int) { }\nproc exit() { }\n",
+    "proc p(a: printi, ref b: exit, c: nosuch, p: int) {\n  var v: time;\n  var int: int;\n  v := p;\n  p := 1;\n  int := 2;\n  printi(p);\n"
+    "  q();\n  v(1);\n  a[1] := b[2];\n  time := 3;\n  main();\n  p(p, p, p, p);\n}\nproc main() { p(1, 2, 3, 4); main := 0; }\n",
+    "proc main() { var a: array [2] of array [3] of printc; a[0][1] := readi; readi(a); readi(main); exit(1); drawLine(); }\n",
+    "type a = array [2] of int;\nproc a() { }\ntype b = a;\nproc main() { var x: b; var a: a; x := a; a(); b(); }\n",
+]
+
+
 def gen_documents(ctx, n):
     rng = ctx.rng
     docs = [("deep", t) for t in deep_documents(rng)]
@@ -78,13 +90,19 @@ def params_for(method, line, ch, uri=URI):
 
 
 def positions(rng, text, k):
+    import re
     lines = text.split("\n")
     out = [(0, 0), (len(lines) + 3, 0), (0, 10 ** 6), (len(lines) - 1, len(lines[-1]))]
     for _ in range(k):
         l = rng.randrange(len(lines))
         c = rng.randrange(len(lines[l]) + 2)
         out.append((l, c))
-    return out
+    # on identifiers: the handlers' lookups run only there (a name used in an unusual role - a predefined procedure as a type,
+    # an undeclared name - is where a missing guard shows)
+    idents = [(l, m.start() + rng.randrange(0, m.end() - m.start())) for l, s in enumerate(lines[:400])
+              for m in re.finditer(r"[A-Za-z_][A-Za-z_0-9]*", s)]
+    rng.shuffle(idents)
+    return out + idents[:2 * k + 2]
 
 
 def surrogate_edits(rng, text, k):
@@ -271,6 +289,7 @@ def run(ctx):
     nsess = 400 if ctx.thorough() else 48
     # every deep / hand-written document (nesting 30, 120 and 400 of every recursive construct), then a random sample
     picks = [d for d in sess_docs if d[0] == "deep"] + rng.sample(sess_docs, nsess)
+    odd_jobs = [(t, [], ctx.seed * 613 + i, 40) for i, t in enumerate(ODD_ROLE_DOCS)]
     cdir = os.path.join(common.VERIF, "corpus", "C02")
     for f in sorted(os.listdir(cdir)) if os.path.isdir(cdir) else []:
         picks.insert(0, ("corpus:" + f, json.load(open(os.path.join(cdir, f)))["text"]))
@@ -300,6 +319,7 @@ def run(ctx):
     log_jobs = [(picks[i][1], [], ctx.seed * 31 + i, 2, 20.0, (), ("--log", os.path.join(logdir, "s%d.log" % i), "--stdio"))
                 for i in rng.sample(range(len(picks)), min(len(picks), 12 if ctx.thorough() else 4))]
     jobs += log_jobs
+    jobs += odd_jobs
 
     def one(job):
         return session(exe, *job)
